@@ -872,25 +872,27 @@ class SexBatch:
             if not ok:
                 ck.tie_break('compare_sex_chromosomes / guess_xx / do_sex: code and model differ', case, code=code,
                              model=vlib.jsonable(m))
-        self.flush_noise(items, reqs)
+        self.flush_noise(items, reqs, res)
 
-    def flush_noise(self, items, reqs):
+    def flush_noise(self, items, reqs, sexres):
         """the hypotheses of the bounded-noise theorems on every sample that carries a `noise` record"""
         ck = self.ck
-        sel = [(it, rq) for it, rq in zip(items, reqs) if it[0].get('noise') and not isinstance(it[6], Err)]
+        sel = [(it, rq, sm) for it, rq, sm in zip(items, reqs, sexres)
+               if it[0].get('noise') and not isinstance(it[6], Err) and not isinstance(sm, Err)]
         if not sel:
             return
         nreqs = []
-        for (case, rows, hd, hw, hap, build, code), rq in sel:
+        for (case, rows, hd, hw, hap, build, code), rq, sm in sel:
             nz = case['noise']
             nreqs.append([F(nz['eps']), F(nz['a']), bool(nz['female']), hap, build, rq[2], rq[3]])
         res = vlib.model_batch_parallel('c15_noise_check', nreqs)
         st = ck.extra.setdefault('sex_noise', {})
-        for ((case, rows, hd, hw, hap, build, code), rq), m in zip(sel, res):
+        for ((case, rows, hd, hw, hap, build, code), rq, sm), m in zip(sel, res):
             nz = case['noise']
             if isinstance(m, Err):
                 raise RuntimeError('c15_noise_check failed on a generated sample: %r' % (m,))
-            bounded_b, centred_b, cx, cy, rx, ry, is_xy, c_auto, c_x, c_y = m
+            bounded_b, centred_b, cx, cy, rx, ry, c_auto, c_x, c_y = m
+            is_xy = sm[0]            # the model's decision on the same input (c15_sex)
             sc = scipy_contract(rows, hw, hap, build)
             rec = st.setdefault(nz['stream'], {'samples': 0, 'bins_within_eps': 0, 'centres_within_eps': 0,
                                                'route_statistics_x': 0, 'route_statistics_y': 0, 'y_present': 0,
@@ -924,12 +926,15 @@ class SexBatch:
             if not met and len(rec['unmet_examples']) < 5:
                 rec['unmet_examples'].append({'info': case.get('info'), 'chrX': sc['x'], 'chrY': sc['y'],
                                               'code_is_xy': code.get('is_xy'), 'truth': case.get('truth')})
+            # (the model is regenerated from the source's constants -- PAR table, shifts, weighted-median constants --, so
+            #  after a change of the code these can fail: reported as a broken tie, never as a harness error)
             if nz['bounded'] and not bounded_b:
-                raise RuntimeError('bounded-noise generator produced a sample outside bounded_noise_b (harness error): %r'
-                                   % (case.get('info'),))
+                ck.tie_break('a sample generated with every bin within eps of its level is outside bounded_noise_b of the '
+                             '(regenerated) model', case, code={'info': case.get('info')}, model={'bounded_noise_b': False})
             if bounded_b and not centred_b:
-                raise RuntimeError('bins within eps but centres not: contradicts C15_bounded_is_centred '
-                                   '(harness / extraction error)')
+                ck.tie_break('bins within eps but the centres of the (regenerated) model are not: C15_bounded_is_centred no '
+                             'longer holds of it', case, code={'info': case.get('info')},
+                             model={'centres': vlib.jsonable([c_auto, c_x, c_y])})
             want_xy = not nz['female']
             under = bool(centred_b) and met and F(nz['eps']) < F(1, 4)
             rec['under_theorem'] += under
@@ -945,8 +950,9 @@ class SexBatch:
             if under:
                 ck.cls('sex-noise:%s:under-theorem' % nz['stream'])
                 if is_xy is not want_xy:
-                    raise RuntimeError('the model calls a sample that passes noise_check by the wrong sex: contradicts '
-                                       'C15_sex_noise_check (harness / extraction error): %r' % (case.get('info'),))
+                    ck.tie_break('the (regenerated) model calls a sample that passes noise_check by the wrong sex: '
+                                 'C15_sex_noise_check no longer holds of it', case, code={'is_xy': code.get('is_xy')},
+                                 model={'is_xy': is_xy, 'want': want_xy})
                 if wrong:
                     rec['wrong_calls_under_theorem'] += 1
                     ck.violation('a %s sample that meets every hypothesis of C15_sex_centred_noise (centres within %s of '
